@@ -597,13 +597,14 @@ def setup_all():
     compile_bin('history', ['checks/history.cc'], 'fast', libs=['-lrapidcheck'], inc=[refd])
     compile_bin('readercheck', ['checks/readercheck.cc'], 'fast', libs=['-lrapidcheck'])
     compile_bin('mdlcheck', ['checks/mdlcheck.cc'], 'fast')
+    compile_bin('mdlcheck', ['checks/mdlcheck.cc'], 'san')
     compile_bin('kernels', ['checks/kernels.cc'], 'fast')
     compile_bin('fuzz_shoot', ['fuzz/fuzz_shoot.cc'], 'fuzz', inc=[os.path.join(ROOT, 'fuzz'), refd])
     for name, src, _ in C15_TARGETS:
         compile_bin(name, [src], 'fuzz', inc=[os.path.join(ROOT, 'fuzz'), refd])
     vlib.build_variant('tsan')
-    compile_bin('threads', ['checks/threads.cc'], 'fast')
-    compile_bin('threads', ['checks/threads.cc'], 'tsan')
+    compile_bin('threads', ['checks/threads.cc'], 'fast', inc=[refd])
+    compile_bin('threads', ['checks/threads.cc'], 'tsan', inc=[refd])
     compile_bin('api_ref', ['checks/api_ref.cc'], 'fast')
     _killshim()
     compile_bin('gacheck', ['checks/gacheck.cc'], 'san')
